@@ -10,6 +10,7 @@ import (
 	"strings"
 
 	ledger "github.com/formancehq/ledger/internal"
+	"github.com/formancehq/ledger/pkg/features"
 
 	"github.com/formancehq/ledger/verifharness/core"
 	"github.com/formancehq/ledger/verifharness/memstore"
@@ -20,22 +21,29 @@ import (
 func init() {
 	core.Register(&core.Check{
 		ID: "C12", Level: "exploration",
-		Rule: "an export of 2-4 logs is imported into an initializing ledger concurrently with one or two other clients (a create through the controller, an atomic bulk, a non-atomic bulk, a metadata write, or a second import); every interleaving at store calls / the ledger advisory lock / COMMITs within 2 (thorough 3) preemptions is enumerated once up to a cap, plus random walks, plus free-running under the race detector. Oracle: the reduced final state (logs, transactions, volumes, ledger state) must equal the result of one of the serial orders of the same operations executed by the real code; an accepted import requires the initializing state; a rejected import changes nothing. Sequential part: imports after prior histories produced through every write path must be rejected with no effect. Distinct = (scenario, interleaving hash, outcome vector); non-trivial = at least one client switch while another client was enabled",
+		Rule: "an export of 2-4 logs (half of them from a source whose first 1-3 ids were burnt by dry runs, so that the stream starts at id 2-4; HASH_LOGS disabled on two thirds of the target ledgers, since hash verification refuses any stream appended after foreign logs) is imported into an initializing ledger concurrently with one or two other clients (a create through the controller, an atomic bulk, a non-atomic bulk, a continue-on-failure bulk whose first element fails, a metadata write, or a second import); the import client resolves its controller, yields, then calls Import. Every interleaving at store calls / the ledger advisory lock / COMMITs within 2 (thorough 3) preemptions is enumerated once up to a cap, plus the directed family {client i runs k steps, client j runs to completion, i resumes} for every k, plus random walks, plus free-running under the race detector. Oracles: (serial) the reduced final state (logs, transactions, volumes, ledger state) must equal the result of one of the serial orders of the same operations (a non-atomic bulk counting as one operation per element) executed by the real code; (direct) the ledger never holds native logs below or among imported ones, an accepted import stored all its logs, a refused import stored none, and with HASH_LOGS=SYNC the final log stream re-imports into a fresh ledger (chain intact). Sequential parts: imports after prior histories produced through every write path must be rejected with no effect; imports through a controller resolved BEFORE another request's first write / import (stale controller) must be rejected with no effect, and a stale writer after a complete import must continue its ids. Distinct = (scenario, interleaving hash, outcome vector); non-trivial = at least one client switch while another client was enabled",
 		Assumptions: []string{seqAssume, "pg_advisory_lock / pg_advisory_xact_lock on the ledger key exclude each other as modelled"},
 		Run:  runC12,
 	})
 }
 
-type c12Scenario struct {
-	Logs    []ledger.Log `json:"-"`
-	LogsRaw string       `json:"export"`
-	Others  []string     `json:"other_clients"` // kinds
+// c12Features: the default feature set, HASH_LOGS disabled in two cases out of three.
+func c12Features(rng *rand.Rand) features.FeatureSet {
+	if rng.Intn(3) == 0 {
+		return features.DefaultFeatures.With(features.FeatureHashLogs, "SYNC")
+	}
+	return features.DefaultFeatures.With(features.FeatureHashLogs, "DISABLED")
 }
 
-func c12Export(rng *rand.Rand) (string, []ledger.Log) {
+// c12Export builds a small source ledger and returns its export. burn > 0: that many
+// dry runs come first, so that the first log (and transaction) id of the stream is burn+1.
+func c12Export(rng *rand.Rand, fs features.FeatureSet, burn int) (string, []ledger.Log) {
 	e := sim.NewEnv(sim.Options{})
 	defer e.Close()
-	_ = e.CreateLedger("src", "_default", nil)
+	_ = e.CreateLedger("src", "_default", fs)
+	for i := 0; i < burn; i++ {
+		e.Apply("src", sim.Op{Kind: "postings", DryRun: true, Postings: []sim.P{{Source: "world", Destination: "burn", Asset: "USD", Amount: "1"}}})
+	}
 	e.Apply("src", sim.Op{Kind: "postings", Postings: []sim.P{{Source: "world", Destination: "a", Asset: "USD", Amount: "10"}}, Reference: "imp-1"})
 	n := 1 + rng.Intn(3)
 	for i := 0; i < n; i++ {
@@ -45,7 +53,7 @@ func c12Export(rng *rand.Rand) (string, []ledger.Log) {
 		case 1:
 			e.Apply("src", sim.Op{Kind: "save_acc_meta", Address: "a", Metadata: map[string]string{"k": fmt.Sprint(i)}})
 		case 2:
-			e.Apply("src", sim.Op{Kind: "revert", TxID: 1, Force: true})
+			e.Apply("src", sim.Op{Kind: "revert", TxID: uint64(1 + burn), Force: true})
 		}
 	}
 	exp := e.Do("POST", "/v2/src/logs/export", nil, nil)
@@ -62,6 +70,33 @@ func c12Export(rng *rand.Rand) (string, []ledger.Log) {
 	return string(exp.Body), logs
 }
 
+func c12Burn(rng *rand.Rand) int {
+	if rng.Intn(2) == 0 {
+		return 0
+	}
+	return 1 + rng.Intn(3)
+}
+
+// c12ImportVia streams logs into Import of an already resolved controller.
+func c12ImportVia(ctx context.Context, ctrl interface {
+	Import(ctx context.Context, stream chan ledger.Log) error
+}, logs []ledger.Log) string {
+	stream := make(chan ledger.Log, len(logs))
+	for _, l := range logs {
+		stream <- l
+	}
+	close(stream)
+	if err := ctrl.Import(ctx, stream); err != nil {
+		return "import:" + sim.Classify(err)
+	}
+	return "import:ok"
+}
+
+const c12BulkBody = `[{"action":"CREATE_TRANSACTION","data":{"postings":[{"source":"world","destination":"w","asset":"USD","amount":7}]}},{"action":"ADD_METADATA","data":{"targetType":"ACCOUNT","targetId":"w","metadata":{"m":"1"}}}]`
+
+// first element fails (insufficient funds), second is accepted
+const c12BulkCofBody = `[{"action":"CREATE_TRANSACTION","data":{"postings":[{"source":"empty","destination":"w","asset":"USD","amount":7}]}},{"action":"CREATE_TRANSACTION","data":{"postings":[{"source":"world","destination":"w","asset":"USD","amount":7}]}}]`
+
 // c12Client runs one client kind on ledger "dst"; returns a short outcome string.
 func c12Client(ctx context.Context, e *sim.Env, kind string, logs []ledger.Log) string {
 	switch kind {
@@ -70,27 +105,32 @@ func c12Client(ctx context.Context, e *sim.Env, kind string, logs []ledger.Log) 
 		if err != nil {
 			return "err:" + err.Error()
 		}
-		stream := make(chan ledger.Log, len(logs))
-		for _, l := range logs {
-			stream <- l
+		// the request is resolved (ledger row loaded); anything may happen before Import is called
+		if s := e.C.Sched; s != nil {
+			s.Yield(ctx, "controller-built")
 		}
-		close(stream)
-		if err := ctrl.Import(ctx, stream); err != nil {
-			return "import:" + sim.Classify(err)
-		}
-		return "import:ok"
+		return c12ImportVia(ctx, ctrl, logs)
 	case "create":
 		out := e.ApplyCtx(ctx, "dst", sim.Op{Kind: "postings", Postings: []sim.P{{Source: "world", Destination: "w", Asset: "USD", Amount: "7"}}})
 		return "create:" + out.Class
 	case "meta":
 		out := e.ApplyCtx(ctx, "dst", sim.Op{Kind: "save_acc_meta", Address: "w", Metadata: map[string]string{"m": "1"}})
 		return "meta:" + out.Class
-	case "bulk", "bulk-atomic":
-		q := ""
+	case "bulk", "bulk-atomic", "bulk-cof", "bulk#0", "bulk#1", "bulk-cof#0", "bulk-cof#1":
+		q, body := "", c12BulkBody
 		if kind == "bulk-atomic" {
 			q = "?atomic=true"
 		}
-		r := e.DoCtx(ctx, "POST", "/v2/dst/_bulk"+q, []byte(`[{"action":"CREATE_TRANSACTION","data":{"postings":[{"source":"world","destination":"w","asset":"USD","amount":7}]}},{"action":"ADD_METADATA","data":{"targetType":"ACCOUNT","targetId":"w","metadata":{"m":"1"}}}]`), nil)
+		if strings.HasPrefix(kind, "bulk-cof") {
+			q, body = "?continueOnFailure=true", c12BulkCofBody
+		}
+		if i := strings.Index(kind, "#"); i > 0 {
+			// one element of a non-atomic bulk as a request of its own (serial reference runs only)
+			var els []json.RawMessage
+			_ = json.Unmarshal([]byte(body), &els)
+			body = "[" + string(els[int(kind[i+1]-'0')]) + "]"
+		}
+		r := e.DoCtx(ctx, "POST", "/v2/dst/_bulk"+q, []byte(body), nil)
 		if r.Status == 500 && len(r.Body) == 0 {
 			return kind + ":panic"
 		}
@@ -110,6 +150,12 @@ func c12Client(ctx context.Context, e *sim.Env, kind string, logs []ledger.Log) 
 		return res
 	}
 	panic(kind)
+}
+
+// c12Wrote: the client outcome says a native write was accepted.
+func c12Wrote(out string) bool {
+	return strings.HasSuffix(out, ":ok") && !strings.HasPrefix(out, "import:") ||
+		strings.HasPrefix(out, "bulk:200") || strings.HasPrefix(out, "bulk-atomic:200") || strings.HasPrefix(out, "bulk-cof:")
 }
 
 // reduced state: what must coincide with a serial execution (dates of live writes depend on the logical clock).
@@ -133,72 +179,289 @@ func c12Reduce(s *memstore.Snap) string {
 	return b.String()
 }
 
-func c12Serial(order []int, kinds []string, logs []ledger.Log) (string, []string) {
+func c12Canon(raw []byte) string {
+	var v any
+	if err := json.Unmarshal(raw, &v); err != nil {
+		return string(raw)
+	}
+	b, _ := json.Marshal(v)
+	return string(b)
+}
+
+// c12Mix is the direct oracle on a final state: which stored logs are the stream's, which are native.
+// Returns a violation class ("" = fine) and the classification.
+func c12Mix(s *memstore.Snap, logs []ledger.Log, outs []string) (string, map[string]any) {
+	exp := map[uint64]ledger.Log{}
+	for _, l := range logs {
+		exp[*l.ID] = l
+	}
+	var imported, native []uint64
+	for _, l := range s.Logs {
+		x, ok := exp[l.ID]
+		if ok {
+			pb, _ := json.Marshal(x.Data)
+			ok = x.Type.String() == l.Type && c12Canon(pb) == c12Canon([]byte(l.Data))
+		}
+		if ok {
+			imported = append(imported, l.ID)
+		} else {
+			native = append(native, l.ID)
+		}
+	}
+	nOK := 0
+	for _, o := range outs {
+		if o == "import:ok" {
+			nOK++
+		}
+	}
+	info := map[string]any{"imported_log_ids": imported, "native_log_ids": native, "accepted_imports": nOK, "ledger_state": s.State}
+	switch {
+	case nOK > 1:
+		return "more-than-one-import-accepted", info
+	case nOK == 0 && len(imported) > 0:
+		return "refused-import-left-logs", info
+	case nOK > 0 && len(imported) != len(logs):
+		return "accepted-import-did-not-store-all-its-logs", info
+	}
+	if len(imported) > 0 && len(native) > 0 && native[0] < imported[len(imported)-1] {
+		return "ledger-holds-native-logs-below-or-among-imported-logs", info
+	}
+	var last uint64
+	for _, t := range s.Transactions {
+		if t.ID <= last {
+			return "transaction-ids-not-increasing", info
+		}
+		last = t.ID
+	}
+	if len(native) > 0 && s.State != "in-use" {
+		return "native-write-accepted-but-ledger-still-initializing", info
+	}
+	return "", info
+}
+
+// c12Chain: with HASH_LOGS=SYNC the final stream of dst must be accepted by a fresh ledger (every stored hash chains from its predecessor).
+func c12Chain(e *sim.Env, fs features.FeatureSet) (bool, string) {
+	if fs[features.FeatureHashLogs] != "SYNC" {
+		return true, ""
+	}
+	exp := e.Do("POST", "/v2/dst/logs/export", nil, nil)
+	if exp.Status != 200 {
+		return false, fmt.Sprintf("export status %d: %s", exp.Status, exp.Body)
+	}
+	if len(bytes.TrimSpace(exp.Body)) == 0 {
+		return true, ""
+	}
+	_ = e.CreateLedger("chk", "chkb", fs)
+	imp := e.Do("POST", "/v2/chk/logs/import", exp.Body, map[string]string{"Content-Type": "application/octet-stream"})
+	if imp.Status != 204 {
+		return false, fmt.Sprintf("import status %d: %s", imp.Status, imp.Body)
+	}
+	return true, ""
+}
+
+// c12Units: the atomic units of a client. The elements of a non-atomic bulk are committed one by one,
+// other requests may come in between.
+func c12Units(kind string) []string {
+	if kind == "bulk" || kind == "bulk-cof" {
+		return []string{kind + "#0", kind + "#1"}
+	}
+	return []string{kind}
+}
+
+// c12Orders enumerates the serial orders of the clients' atomic units (per-client order kept); each entry is a client index.
+func c12Orders(kinds []string) [][]int {
+	left := make([]int, len(kinds))
+	total := 0
+	for i, k := range kinds {
+		left[i] = len(c12Units(k))
+		total += left[i]
+	}
+	var out [][]int
+	var rec func(cur []int)
+	rec = func(cur []int) {
+		if len(cur) == total {
+			out = append(out, append([]int(nil), cur...))
+			return
+		}
+		for i := range kinds {
+			if left[i] > 0 {
+				left[i]--
+				rec(append(cur, i))
+				left[i]++
+			}
+		}
+	}
+	rec(nil)
+	return out
+}
+
+func c12Serial(order []int, kinds []string, logs []ledger.Log, fs features.FeatureSet) (string, []string) {
 	e := sim.NewEnv(sim.Options{})
 	defer e.Close()
-	_ = e.CreateLedger("dst", "_default", nil)
+	_ = e.CreateLedger("dst", "_default", fs)
 	outs := make([]string, len(kinds))
+	done := make([]int, len(kinds))
 	for _, i := range order {
-		outs[i] = c12Client(memstore.WithClient(e.Ctx, i), e, kinds[i], logs)
+		u := c12Units(kinds[i])[done[i]]
+		done[i]++
+		o := c12Client(memstore.WithClient(e.Ctx, i), e, u, logs)
+		if outs[i] != "" {
+			o = outs[i] + "," + o
+		}
+		outs[i] = o
 	}
 	return c12Reduce(e.C.Snapshot("dst")), outs
 }
 
-func permutations(n int) [][]int {
-	if n == 1 {
-		return [][]int{{0}}
-	}
-	var out [][]int
-	for _, p := range permutations(n - 1) {
-		for i := 0; i <= len(p); i++ {
-			q := append(append(append([]int{}, p[:i]...), n-1), p[i:]...)
-			out = append(out, q)
-		}
-	}
-	return out
-}
+var c12WritePaths = []string{"create", "meta", "bulk", "bulk-atomic", "bulk-cof"}
 
 func runC12(r *core.Run) {
 	// --- sequential part: import after a prior history through each write path is rejected, no effect
 	r.ForEach("seq", r.N(100, 2000), 0, func(c *core.Case) {
-		raw, logs := c12Export(c.Rng)
+		fs := c12Features(c.Rng)
+		burn := c12Burn(c.Rng)
+		raw, logs := c12Export(c.Rng, fs, burn)
 		e := sim.NewEnv(sim.Options{})
 		defer e.Close()
-		_ = e.CreateLedger("dst", "_default", nil)
-		path := []string{"create", "meta", "bulk", "bulk-atomic"}[c.Index%4]
+		_ = e.CreateLedger("dst", "_default", fs)
+		path := c12WritePaths[c.Index%len(c12WritePaths)]
 		first := c12Client(e.Ctx, e, path, logs)
 		before := e.C.Snapshot("dst").Digest()
 		res := c12Client(e.Ctx, e, "import", logs)
-		after := e.C.Snapshot("dst").Digest()
+		snap := e.C.Snapshot("dst")
+		after := snap.Digest()
 		r.Eval("seq|"+path+"|"+first+"|"+res, true)
 		r.Count("imports_after_prior_write", 1)
+		if burn > 0 {
+			r.Count("imports_after_prior_write_with_stream_starting_above_id_1", 1)
+		}
+		detail := map[string]any{"export": raw, "first": first, "import": res, "features": fs.String(), "burnt_ids_on_source": burn}
 		if res == "import:ok" {
-			c.Violation("C12/import-accepted-after-a-write-via-"+path, map[string]any{"export": raw, "first": first})
+			c.Violation("C12/import-accepted-after-a-write-via-"+path, detail)
 		}
 		if before != after {
-			c.Violation("C12/rejected-import-changed-the-ledger:after-write-via-"+path, map[string]any{"export": raw, "first": first, "import": res})
+			c.Violation("C12/rejected-import-changed-the-ledger:after-write-via-"+path, detail)
 		}
-		if st := e.C.LedgerState("dst"); st != "in-use" && strings.HasSuffix(first, ":ok") {
-			c.Violation("C12/ledger-not-in-use-after-accepted-write-via-"+path, map[string]any{"state": st})
+		if st := e.C.LedgerState("dst"); st != "in-use" && c12Wrote(first) {
+			detail["state"] = st
+			c.Violation("C12/ledger-not-in-use-after-accepted-write-via-"+path, detail)
+		}
+		if cls, info := c12Mix(snap, logs, []string{res}); cls != "" {
+			detail["classification"] = info
+			c.Violation("C12/"+cls+":sequential:after-write-via-"+path, detail)
 		}
 		// an import whose logs do not all follow the existing ones
 		e2 := sim.NewEnv(sim.Options{})
 		defer e2.Close()
-		_ = e2.CreateLedger("dst", "_default", nil)
+		_ = e2.CreateLedger("dst", "_default", fs)
 		if r1 := c12Client(e2.Ctx, e2, "import", logs); r1 == "import:ok" {
 			b := e2.C.Snapshot("dst").Digest()
 			r2 := c12Client(e2.Ctx, e2, "import", logs)
 			if r2 == "import:ok" || e2.C.Snapshot("dst").Digest() != b {
 				c.Violation("C12/second-import-of-the-same-logs-accepted-or-effective", map[string]any{"export": raw, "second": r2})
 			}
+		} else {
+			c.Violation("C12/import-into-a-pristine-ledger-refused", map[string]any{"export": raw, "import": r1, "features": fs.String(), "burnt_ids_on_source": burn})
 		}
 	})
+
+	// --- stale controllers: the importing request was resolved (controller built, ledger row loaded:
+	// initializing) BEFORE another request's first write / import committed, and calls Import AFTER it.
+	r.ForEach("stale", r.N(120, 2400), 0, func(c *core.Case) {
+		fs := c12Features(c.Rng)
+		burn := c12Burn(c.Rng)
+		if c.Index%2 == 0 && burn == 0 {
+			burn = 1 + c.Rng.Intn(3)
+		}
+		raw, logs := c12Export(c.Rng, fs, burn)
+		between := append(append([]string{}, c12WritePaths...), "import")[c.Index%(len(c12WritePaths)+1)]
+		e := sim.NewEnv(sim.Options{})
+		defer e.Close()
+		_ = e.CreateLedger("dst", "_default", fs)
+		detail := map[string]any{"export": raw, "between": between, "features": fs.String(), "burnt_ids_on_source": burn}
+		stale, err := e.Sys.GetLedgerController(e.Ctx, "dst")
+		if err != nil {
+			r.Inconclusive(err.Error())
+			return
+		}
+		mid := c12Client(e.Ctx, e, between, logs)
+		detail["between_outcome"] = mid
+		before := e.C.Snapshot("dst").Digest()
+		res := c12ImportVia(e.Ctx, stale, logs)
+		detail["import"] = res
+		snap := e.C.Snapshot("dst")
+		r.Eval("stale|"+between+"|"+mid+"|"+res+fmt.Sprintf("|burn=%v|%s", burn > 0, fs[features.FeatureHashLogs]), true)
+		r.Count("imports_through_stale_controllers", 1)
+		r.Seen("stale_controller_scenarios", fmt.Sprintf("%s burn=%v hash=%s => %s", between, burn > 0, fs[features.FeatureHashLogs], res))
+		if res == "import:ok" {
+			c.Violation("C12/import-through-a-controller-resolved-before-another-request-accepted:after-"+between, detail)
+		}
+		if snap.Digest() != before {
+			c.Violation("C12/refused-import-through-a-stale-controller-changed-the-ledger:after-"+between, detail)
+		}
+		outs := []string{res}
+		if between == "import" {
+			outs = append(outs, mid)
+		}
+		if cls, info := c12Mix(snap, logs, outs); cls != "" {
+			detail["classification"] = info
+			c.Violation("C12/"+cls+":stale-controller:after-"+between, detail)
+		}
+		if ok, why := c12Chain(e, fs); !ok {
+			detail["reimport"] = why
+			c.Violation("C12/final-log-stream-does-not-reimport:stale-controller:after-"+between, detail)
+		}
+
+		// the other way round: a WRITER resolved before a complete import must observe it (ids continue) or be refused
+		e2 := sim.NewEnv(sim.Options{})
+		defer e2.Close()
+		_ = e2.CreateLedger("dst", "_default", fs)
+		w, err := e2.Sys.GetLedgerController(e2.Ctx, "dst")
+		if err != nil {
+			r.Inconclusive(err.Error())
+			return
+		}
+		imp := c12Client(e2.Ctx, e2, "import", logs)
+		op := sim.Op{Kind: "postings", Postings: []sim.P{{Source: "world", Destination: "w", Asset: "USD", Amount: "7"}}}
+		if c.Index%3 == 1 {
+			op = sim.Op{Kind: "revert", TxID: uint64(1 + burn), Force: true}
+		}
+		if c.Index%3 == 2 {
+			op = sim.Op{Kind: "save_acc_meta", Address: "w", Metadata: map[string]string{"m": "1"}}
+		}
+		out := sim.ApplyTo(e2.Ctx, w, op)
+		s2 := e2.C.Snapshot("dst")
+		r.Count("writes_through_stale_controllers_after_an_import", 1)
+		d2 := map[string]any{"export": raw, "features": fs.String(), "burnt_ids_on_source": burn, "import": imp, "write": op, "write_outcome": out.Class}
+		if out.Err != nil {
+			d2["error"] = out.Err.Error()
+		}
+		alreadyReverted := op.Kind == "revert" && out.Class == sim.CAlreadyReverted
+		if imp != "import:ok" {
+			c.Violation("C12/import-into-a-pristine-ledger-refused", d2)
+		} else if !out.OK() && !alreadyReverted {
+			c.Violation("C12/write-through-a-controller-resolved-before-the-import-failed:"+op.Kind+":"+out.Class, d2)
+		}
+		if cls, info := c12Mix(s2, logs, []string{imp}); cls != "" {
+			d2["classification"] = info
+			c.Violation("C12/"+cls+":stale-writer-after-import:"+op.Kind, d2)
+		}
+		if out.OK() && out.Log != nil && *out.Log.ID <= *logs[len(logs)-1].ID {
+			c.Violation("C12/write-after-import-did-not-continue-the-log-ids:"+op.Kind, d2)
+		}
+		if ok, why := c12Chain(e2, fs); !ok {
+			d2["reimport"] = why
+			c.Violation("C12/final-log-stream-does-not-reimport:stale-writer-after-import:"+op.Kind, d2)
+		}
+	})
+
 	if r.RaceMode {
 		r.ForEach("free", r.N(200, 3000), 8, func(c *core.Case) {
-			_, logs := c12Export(c.Rng)
+			fs := c12Features(c.Rng)
+			_, logs := c12Export(c.Rng, fs, c12Burn(c.Rng))
 			kinds := c12Kinds(c.Rng, c.Index)
 			e := sim.NewEnv(sim.Options{})
-			_ = e.CreateLedger("dst", "_default", nil)
+			_ = e.CreateLedger("dst", "_default", fs)
 			outs := make([]string, len(kinds))
 			bodies := make([]func(ctx context.Context), len(kinds))
 			for i := range kinds {
@@ -206,11 +469,12 @@ func runC12(r *core.Run) {
 				bodies[i] = func(ctx context.Context) { outs[i] = c12Client(ctx, e, kinds[i], logs) }
 			}
 			runFree(e.Ctx, bodies)
-			got := c12Reduce(e.C.Snapshot("dst"))
+			snap := e.C.Snapshot("dst")
+			got := c12Reduce(snap)
 			e.Close()
 			ok := false
-			for _, p := range permutations(len(kinds)) {
-				if want, _ := c12Serial(p, kinds, logs); want == got {
+			for _, p := range c12Orders(kinds) {
+				if want, _ := c12Serial(p, kinds, logs, fs); want == got {
 					ok = true
 				}
 			}
@@ -218,28 +482,43 @@ func runC12(r *core.Run) {
 			if !ok {
 				c.Violation("C12/final-state-matches-no-serial-order:free-mode:"+strings.Join(kinds, "+"), map[string]any{"kinds": kinds, "outcomes": outs, "got": got})
 			}
+			if cls, info := c12Mix(snap, logs, outs); cls != "" {
+				c.Violation("C12/"+cls+":free-mode:"+strings.Join(kinds, "+"), map[string]any{"kinds": kinds, "outcomes": outs, "classification": info})
+			}
 		})
 		return
 	}
 	// --- controlled interleavings
-	nsc := r.N(30, 300)
+	nsc := r.N(36, 360)
 	per := r.N(250, 1200)
 	r.Floor("interleavings", int64(nsc*per/4))
 	r.ForEach("conc", nsc, 0, func(c *core.Case) {
-		raw, logs := c12Export(c.Rng)
+		fs := c12Features(c.Rng)
+		burn := c12Burn(c.Rng)
+		if c.Index%2 == 0 && burn == 0 {
+			burn = 1 + c.Rng.Intn(3)
+		}
+		raw, logs := c12Export(c.Rng, fs, burn)
 		kinds := c12Kinds(c.Rng, c.Index)
 		serial := map[string][]string{}
-		for _, p := range permutations(len(kinds)) {
-			st, outs := c12Serial(p, kinds, logs)
+		for _, p := range c12Orders(kinds) {
+			st, outs := c12Serial(p, kinds, logs, fs)
 			serial[st] = outs
 		}
 		if c.Index < 2 {
-			r.Sample(map[string]any{"clients": kinds, "export": raw, "serial_outcomes": serial})
+			r.Sample(map[string]any{"clients": kinds, "export": raw, "serial_outcomes": serial, "features": fs.String(), "burnt_ids_on_source": burn})
 		}
+		if burn > 0 {
+			r.Count("scenarios_with_stream_starting_above_id_1", 1)
+		}
+		if fs[features.FeatureHashLogs] != "SYNC" {
+			r.Count("scenarios_without_log_hashing", 1)
+		}
+		scen := strings.Join(kinds, "+")
 		exec := func(ch sched.Chooser) *sched.Sched {
 			e := sim.NewEnv(sim.Options{})
 			defer e.Close()
-			_ = e.CreateLedger("dst", "_default", nil)
+			_ = e.CreateLedger("dst", "_default", fs)
 			outs := make([]string, len(kinds))
 			bodies := make([]func(ctx context.Context), len(kinds))
 			for i := range kinds {
@@ -253,27 +532,39 @@ func runC12(r *core.Run) {
 			r.Count("schedules_run", 1)
 			r.Seen("interleavings", fmt.Sprintf("%d/%s", c.Index, s.Hash()))
 			switches := 0
+			importParkedWhileOtherRan := false
 			for _, st := range s.Trace {
 				if st.Current >= 0 && st.Chosen != st.Current {
 					switches++
+					if kinds[st.Current] == "import" {
+						importParkedWhileOtherRan = true
+					}
 				}
 			}
+			if importParkedWhileOtherRan {
+				r.Count("schedules_switching_away_from_a_resolved_import", 1)
+			}
 			r.Eval(fmt.Sprintf("%d|%s|%v", c.Index, s.Hash(), outs), switches > 0)
-			r.Seen("outcome_vectors", strings.Join(kinds, "+")+" => "+strings.Join(outs, ","))
-			detail := map[string]any{"clients": kinds, "outcomes": outs, "export": raw, "interleaving": s.String(), "schedule": s.Choices()}
+			r.Seen("outcome_vectors", scen+" => "+strings.Join(outs, ","))
+			detail := map[string]any{"clients": kinds, "outcomes": outs, "export": raw, "interleaving": s.String(), "schedule": s.Choices(), "features": fs.String(), "burnt_ids_on_source": burn}
 			if s.Stuck {
 				detail["locks"] = e.C.DebugLocks()
-				c.Violation("C12/all-clients-blocked-forever:"+strings.Join(kinds, "+"), detail)
+				c.Violation("C12/all-clients-blocked-forever:"+scen, detail)
 				return s
 			}
 			if pend, locks := e.C.PendingLeftovers(); pend != 0 || locks != 0 {
-				c.Violation("C12/open-transaction-or-lock-after-all-clients-returned:"+strings.Join(kinds, "+"), detail)
+				c.Violation("C12/open-transaction-or-lock-after-all-clients-returned:"+scen, detail)
 			}
-			got := c12Reduce(e.C.Snapshot("dst"))
+			snap := e.C.Snapshot("dst")
+			got := c12Reduce(snap)
 			if _, ok := serial[got]; !ok {
 				detail["got"] = got
 				detail["serial_states"] = serial
-				c.Violation("C12/final-state-matches-no-serial-order:"+strings.Join(kinds, "+"), detail)
+				c.Violation("C12/final-state-matches-no-serial-order:"+scen, detail)
+			}
+			if cls, info := c12Mix(snap, logs, outs); cls != "" {
+				detail["classification"] = info
+				c.Violation("C12/"+cls+":"+scen, detail)
 			}
 			for i, o := range outs {
 				if strings.HasSuffix(o, ":panic") || strings.HasSuffix(o, ":other") {
@@ -281,7 +572,31 @@ func runC12(r *core.Run) {
 					c.Violation("C12/unexpected-outcome:"+kinds[i]+":"+o, detail)
 				}
 			}
+			if ok, why := c12Chain(e, fs); !ok {
+				detail["reimport"] = why
+				c.Violation("C12/final-log-stream-does-not-reimport:"+scen, detail)
+			}
 			return s
+		}
+		// directed family: client i runs k scheduling steps, then client j runs to completion, then the rest
+		for i := range kinds {
+			for j := range kinds {
+				if i == j {
+					continue
+				}
+				for k := 1; k < 400; k++ {
+					prefix := make([]int, 0, k+1)
+					for n := 0; n < k; n++ {
+						prefix = append(prefix, i)
+					}
+					prefix = append(prefix, j)
+					s := exec(&sched.PrefixChooser{Prefix: prefix})
+					r.Count("directed_single_preemption_schedules", 1)
+					if s.Diverged || s.Stuck {
+						break
+					}
+				}
+			}
 		}
 		x := &sched.Explorer{Bound: r.N(2, 3), MaxRuns: per * 2 / 3, Rng: c.Rng}
 		x.Explore(func(prefix []int) *sched.Sched { return exec(&sched.PrefixChooser{Prefix: prefix}) })
@@ -296,7 +611,7 @@ func runC12(r *core.Run) {
 }
 
 func c12Kinds(rng *rand.Rand, idx int) []string {
-	others := []string{"create", "bulk-atomic", "bulk", "meta", "import"}
+	others := []string{"create", "bulk-atomic", "bulk", "meta", "import", "bulk-cof"}
 	kinds := []string{"import", others[idx%len(others)]}
 	if rng.Intn(3) == 0 {
 		kinds = append(kinds, others[rng.Intn(len(others))])
